@@ -50,26 +50,22 @@ theorem grow_step (s s' : St) (e : Ev) (hs : step s e = some s') : Grow s s' := 
     · split at hs
       · simp at hs; subst hs; exact grow_congr rfl rfl
       · simp at hs
-  | exec =>
+  | exec id =>
     simp only [step] at hs
     split at hs
-    · rename_i id op hc
+    · rename_i op hc
       simp at hs; subst hs
       exact (grow_execOp s op).trans (grow_congr rfl rfl)
     · simp at hs
   | ctor k d =>
     simp only [step] at hs
     split at hs
-    · split at hs
-      · simp at hs; subst hs; exact grow_congr rfl rfl
-      · simp at hs
+    · simp at hs; subst hs; exact grow_congr rfl rfl
     · simp at hs
   | ret id res =>
     simp only [step] at hs
     split at hs
-    · split at hs
-      · simp at hs; subst hs; exact grow_congr rfl rfl
-      · simp at hs
+    · simp at hs; subst hs; exact grow_congr rfl rfl
     · simp at hs
   | proceed g i =>
     simp only [step] at hs
